@@ -32,7 +32,7 @@ LEVEL_TEXT = ("Exploration: the peer's parser is an invariant monitor on every d
 LEVEL_NOTE = "Trusted: the independent codec."
 TECHNIQUE = "deterministic simulation with an independent frame parser as invariant monitor in the peer"
 
-N_GRID = {"quick": 500, "thorough": 50_000}      # batches of 40 commands
+N_GRID = {"quick": 500, "thorough": 200_000}      # batches of 40 commands
 N_WRAP = {"quick": 1, "thorough": 4}
 N_SETTERS = {"quick": 60, "thorough": 600}
 PER_BATCH = 40
